@@ -10,9 +10,11 @@ import (
 	"fmt"
 	"io"
 	"os"
+	"runtime/pprof"
 	"sort"
 	"strings"
 	"sync"
+	"sync/atomic"
 	"time"
 
 	redisemu "github.com/jimsnab/go-redisemu"
@@ -118,6 +120,11 @@ type Scenario struct {
 	// Horizon overrides the step budget.
 	Horizon   int
 	TimerAlts bool
+	// MapOrder: the scenario runs a command that walks a Go map of connections (CLIENT LIST,
+	// CLIENT KILL) while taking locks per entry; Go randomises that order, so a recorded prefix
+	// may not be replayable. Such prefixes are retried and, if still unreproducible, skipped and
+	// counted (never reported as a violation); everywhere else a divergence is a harness error.
+	MapOrder bool
 }
 
 // runSchedule executes the scenario under the schedule described by prefix.
@@ -162,6 +169,7 @@ type exploreStats struct {
 	MaxPoints   int            `json:"max_points"`
 	Horizon     int            `json:"horizon_hits"`
 	Diverged    int            `json:"replay_divergences"`
+	Unreproducible int         `json:"unreproducible_prefixes"`
 	Outcomes    map[string]int `json:"outcomes"`
 	Terminals   map[string]int `json:"terminals"`
 	PerBound    map[int]int    `json:"per_bound"`
@@ -189,6 +197,7 @@ func (st *exploreStats) merge(o *exploreStats) {
 	}
 	st.Horizon += o.Horizon
 	st.Diverged += o.Diverged
+	st.Unreproducible += o.Unreproducible
 	for k, v := range o.Outcomes {
 		st.Outcomes[k] += v
 	}
@@ -231,6 +240,16 @@ func exploreFrom(sc *Scenario, root []int, bound int, deadline time.Time, st *ex
 		n := stack[len(stack)-1]
 		stack = stack[:len(stack)-1]
 		x := runSchedule(sc, n.prefix, false)
+		atomic.AddInt64(&execCounter, 1)
+		if sc.MapOrder {
+			for try := 0; try < 40 && x.Sched.Divergence != ""; try++ {
+				x = runSchedule(sc, n.prefix, false)
+			}
+			if x.Sched.Divergence != "" {
+				st.Unreproducible++
+				continue
+			}
+		}
 		s := x.Sched
 		st.Execs++
 		st.Points += len(s.Points)
@@ -335,8 +354,30 @@ type exploreTask struct {
 	Budget   int   `json:"t"` // seconds
 }
 
+var workerBusy int64
+var currentScenario string
+var execCounter int64 // progress indicator for the watchdog (written by the exploring goroutine only)
+
 func exploreWorker(scenarios []*Scenario) {
 	redisemu.VInit()
+	// watchdog: an execution that makes no progress for 60 s is a pure compute loop inside the
+	// implementation (or a harness fault); dump all stacks and die so that the parent can report it
+	go func() {
+		last, since := int64(-1), time.Now()
+		for {
+			time.Sleep(2 * time.Second)
+			cur := atomic.LoadInt64(&execCounter)
+			if cur != last {
+				last, since = cur, time.Now()
+				continue
+			}
+			if time.Since(since) > 60*time.Second && atomic.LoadInt64(&workerBusy) == 1 {
+				fmt.Fprintf(os.Stderr, "WATCHDOG: no progress for 60 s in %s; goroutine dump follows\n", currentScenario)
+				pprof.Lookup("goroutine").WriteTo(os.Stderr, 2)
+				os.Exit(3)
+			}
+		}
+	}()
 	dec := json.NewDecoder(bufio.NewReaderSize(os.Stdin, 1<<20))
 	w := bufio.NewWriterSize(protoOut, 1<<20)
 	enc := json.NewEncoder(w)
@@ -349,7 +390,10 @@ func exploreWorker(scenarios []*Scenario) {
 			os.Exit(2)
 		}
 		st := newStats()
+		currentScenario = scenarios[t.Scenario].Name
+		atomic.StoreInt64(&workerBusy, 1)
 		exploreFrom(scenarios[t.Scenario], t.Prefix, t.Bound, time.Now().Add(time.Duration(t.Budget)*time.Second), st)
+		atomic.StoreInt64(&workerBusy, 0)
 		enc.Encode(st)
 		w.Flush()
 	}
@@ -462,6 +506,7 @@ func runExplore(propID, group string, scenarios []*Scenario, bound int, tier str
 	addCov("distinct_outcomes", len(total.Outcomes))
 	addCov("horizon_hits", total.Horizon)
 	addCov("replay_divergences", total.Diverged)
+	addCov("prefixes_skipped_map_iteration_order", total.Unreproducible)
 	rep.Coverage["preemption_bound_"+group] = bound
 	pb := map[string]int{}
 	for k, v := range total.PerBound {
